@@ -26,6 +26,10 @@ typedef B::Graph Graph;
 typedef B::Edge Edge;
 typedef boost::property_map<Graph, boost::edge_weight_t>::type WeightMap;
 
+// k as used in the ORACLE's arithmetic: huge values of k (callers use them as "infinity") are clamped to 2^20, beyond which
+// every bound below is vacuous for the graphs enumerated; the library itself always receives the original k
+static long kc(long k) { return k > (1L << 20) ? (1L << 20) : k; }
+
 static std::string cs_of(const vg::EdgeList &el, const std::vector<double> &w, int var, long k) {
     return vg::case_string(el, w, std::string("variant=") + vv::approx_name(var) + ";k=" + std::to_string(k));
 }
@@ -89,10 +93,10 @@ static void check_spanner_t(vr::Runner &R, const vg::EdgeList &el, const std::ve
     for (int i = 0; i < m; ++i) {
         if (dropped[i]) {
             int h = hops(el.e[i].first, el.e[i].second, w[i], -1);
-            if (h < 0 || h > 2 * k - 1) { R.violation({site, "spanner-stretch", cs, "dropped edge " + std::to_string(i) + " has no path of <= 2k-1 retained edges of weight <= its own (hops=" + std::to_string(h) + ")"}); return; }
+            if (h < 0 || h > 2 * kc(k) - 1) { R.violation({site, "spanner-stretch", cs, "dropped edge " + std::to_string(i) + " has no path of <= 2k-1 retained edges of weight <= its own (hops=" + std::to_string(h) + ")"}); return; }
         } else {
             int h = hops(el.e[i].first, el.e[i].second, inf, i);
-            if (h >= 0 && h + 1 <= 2 * k) { R.violation({site, "spanner-girth", cs, "retained edge " + std::to_string(i) + " lies on a cycle of " + std::to_string(h + 1) + " <= 2k retained edges"}); return; }
+            if (h >= 0 && h + 1 <= 2 * kc(k)) { R.violation({site, "spanner-girth", cs, "retained edge " + std::to_string(i) + " lies on a cycle of " + std::to_string(h + 1) + " <= 2k retained edges"}); return; }
         }
     }
     if (verbose) printf("spanner k=%ld retained=%d dropped=%d ok\n", k, (int) std::count(retained.begin(), retained.end(), 1), (int) std::count(dropped.begin(), dropped.end(), 1));
@@ -155,7 +159,7 @@ static void run_case_large(vr::Runner &R, const Cfg &cfg, const vg::EdgeList &el
             if (cfg.c05 && ret != chk.total) R.violation({site, "return-mismatch", cs, "returned " + vg::fmt_w(ret) + " but emitted cycles weigh " + vg::fmt_w(chk.total)});
             if (cfg.c06) {
                 if (opt < 0) opt = vbig::horton_reference(el, w).total;
-                if (chk.total > (2 * k - 1) * opt) R.violation({site, "ratio-exceeded", cs, "basis weight " + vg::fmt_w(chk.total) + " > (2k-1) x optimum " + vg::fmt_w(opt)});
+                if (chk.total > (2 * kc(k) - 1) * opt) R.violation({site, "ratio-exceeded", cs, "basis weight " + vg::fmt_w(chk.total) + " > (2k-1) x optimum " + vg::fmt_w(opt)});
                 else if (chk.total < opt) R.violation({site, "below-optimum", cs, "basis weight below the optimum"});
                 else if (k == 1 && chk.total != opt) R.violation({site, "k1-not-minimum", cs, "k=1 weight " + vg::fmt_w(chk.total) + ", optimum " + vg::fmt_w(opt)});
             }
@@ -206,7 +210,7 @@ static void run_case(vr::Runner &R, const Cfg &cfg, const vg::EdgeList &el, cons
             if (cfg.c05 && ret != chk.total) R.violation({site, "return-mismatch", cs, "returned " + vg::fmt_w(ret) + " but emitted cycles weigh " + vg::fmt_w(chk.total) + " under the caller's map"});
             if (cfg.c06) {
                 need_ref();
-                if (chk.total > (2 * k - 1) * ref.total) R.violation({site, "ratio-exceeded", cs, "basis weight " + vg::fmt_w(chk.total) + " > (2k-1) x optimum " + vg::fmt_w(ref.total)});
+                if (chk.total > (2 * kc(k) - 1) * ref.total) R.violation({site, "ratio-exceeded", cs, "basis weight " + vg::fmt_w(chk.total) + " > (2k-1) x optimum " + vg::fmt_w(ref.total)});
                 else if (chk.total < ref.total) R.violation({site, "below-optimum", cs, "basis weight " + vg::fmt_w(chk.total) + " below the optimum " + vg::fmt_w(ref.total) + " (oracle or validator inconsistency)"});
                 if (k == 1) {
                     std::vector<double> ws = chk.weights; std::sort(ws.begin(), ws.end());
